@@ -769,7 +769,10 @@ def _h_fit_qual(ctx, cls, kind, sizes, n_nan, params, props):
         y = pd.Series([v + 0.001 * (i % 3) for i, v in enumerate(ycol)], index=X.index)
     else:
         y = pd.Series(ycol, index=X.index)
-    fkw = dict(ordinal_features=["f"], values_orders={"f": list(cats)}) if kind == "ord" else dict(qualitative_features=["f"])
+    from harness.common import ranking_container
+    # the container the user's ranking comes in rotates with the job (list, numpy array, GroupedList, dict form)
+    rk = lambda: ranking_container(ctx, cats, which=("list", "array", "grouped", "dict")[(sum(sizes) + n_nan + int(params.get("max_n_mod", 0))) % 4])
+    fkw = dict(ordinal_features=["f"], values_orders={"f": rk()}) if kind == "ord" else dict(qualitative_features=["f"])
     p = dict(params)
     if cls == "ContinuousCarver":
         p.pop("sort_by", None)
@@ -840,7 +843,7 @@ def _h_fit_qual(ctx, cls, kind, sizes, n_nan, params, props):
     if "C01" in props:
         def base():
             d = Discretizer(quantitative_features=[], qualitative_features=[] if kind == "ord" else ["f"], min_freq=params["min_freq"], copy=True,
-                            **(dict(ordinal_features=["f"], values_orders={"f": list(cats)}) if kind == "ord" else {}))
+                            **(dict(ordinal_features=["f"], values_orders={"f": rk()}) if kind == "ord" else {}))
             d.fit(X, y)
             return d
         check_c01(ctx, cls, obj, X, y, None, len(col) - n_nan, n_nan, params, kept, colo, base=base)
